@@ -536,6 +536,14 @@ class SimpleObjectMethod(DeserializationMethod):
         return self.constructor.construct(data)
 
 
+def add_invalid_field(invalid_fields: Optional[set], name: str) -> set:
+    if invalid_fields is None:
+        return {name}
+    else:
+        invalid_fields.add(name)
+        return invalid_fields
+
+
 def extend_errors(
     errors: Optional[List[ErrorMsg]], messages: Sequence[ErrorMsg]
 ) -> List[ErrorMsg]:
@@ -601,6 +609,8 @@ class ObjectMethod(DeserializationMethod):
         except ValidationError as err:
             errors = list(err.messages)
         field_errors: Optional[dict] = None
+        # names (not aliases) of fields with error, validators dependencies being names
+        invalid_fields: Optional[set] = None
         for field in self.fields:
             if field.alias in data:
                 fields_count += 1
@@ -609,16 +619,19 @@ class ObjectMethod(DeserializationMethod):
                 except ValidationError as err:
                     if field.required or not field.fall_back_on_default:
                         field_errors = set_child_error(field_errors, field.alias, err)
+                        invalid_fields = add_invalid_field(invalid_fields, field.name)
             elif field.required:
                 field_errors = set_child_error(
                     field_errors, field.alias, ValidationError(self.missing)
                 )
+                invalid_fields = add_invalid_field(invalid_fields, field.name)
             elif field.required_by is not None and not field.required_by.isdisjoint(
                 data
             ):
                 requiring = sorted(field.required_by & data.keys())
                 error = ValidationError([self.missing + f" (required by {requiring})"])
                 field_errors = set_child_error(field_errors, field.alias, error)
+                invalid_fields = add_invalid_field(invalid_fields, field.name)
         if self.aggregate_fields:
             remain = data.keys() - self.all_aliases
             for flattened_field in self.flattened_fields:
@@ -634,6 +647,9 @@ class ObjectMethod(DeserializationMethod):
                     )
                 except ValidationError as err:
                     if not flattened_field.fall_back_on_default:
+                        invalid_fields = add_invalid_field(
+                            invalid_fields, flattened_field.name
+                        )
                         errors = extend_errors(errors, err.messages)
                         field_errors = update_children_errors(
                             field_errors, err.children
@@ -651,6 +667,9 @@ class ObjectMethod(DeserializationMethod):
                     )
                 except ValidationError as err:
                     if not pattern_field.fall_back_on_default:
+                        invalid_fields = add_invalid_field(
+                            invalid_fields, pattern_field.name
+                        )
                         errors = extend_errors(errors, err.messages)
                         field_errors = update_children_errors(
                             field_errors, err.children
@@ -663,6 +682,9 @@ class ObjectMethod(DeserializationMethod):
                     ] = self.additional_field.method.deserialize(additional)
                 except ValidationError as err:
                     if not self.additional_field.fall_back_on_default:
+                        invalid_fields = add_invalid_field(
+                            invalid_fields, self.additional_field.name
+                        )
                         errors = extend_errors(errors, err.messages)
                         field_errors = update_children_errors(
                             field_errors, err.children
@@ -694,7 +716,7 @@ class ObjectMethod(DeserializationMethod):
                 for name, default_factory in self.init_defaults:
                     if name in values:
                         init[name] = values[name]
-                    elif not field_errors or name not in field_errors:
+                    elif not invalid_fields or name not in invalid_fields:
                         assert default_factory is not None
                         init[name] = default_factory()
             aliases = values.keys()
@@ -704,16 +726,16 @@ class ObjectMethod(DeserializationMethod):
             ]
             if field_errors or errors:
                 error = ValidationError(errors or [], field_errors or {})
-                invalid_fields = self.post_init_modified
-                if field_errors:
-                    invalid_fields = invalid_fields | field_errors.keys()
+                not_validated = self.post_init_modified
+                if invalid_fields:
+                    not_validated = not_validated | invalid_fields
                 try:
                     validate(
                         ValidatorMock(self.constructor.cls, values),
                         [
                             v
                             for v in validators
-                            if v.dependencies.isdisjoint(invalid_fields)
+                            if v.dependencies.isdisjoint(not_validated)
                         ],
                         init,
                         aliaser=self.aliaser,
